@@ -156,27 +156,17 @@ Definition limit_exact (s : ugm_state) (conf : qconf) (w : who) (h : path) : boo
   nlimit_eqb (in_force s w h) (spec_limit conf w h).
 
 (* ------------------------------------------------------------------ usage *)
-(* live allocations per application *)
+(* the ledger of live allocations: one entry per Increase, a negated entry per Decrease that
+   keeps the application, nothing of the application once it has been removed *)
 Record lentry := mkLE { le_app : app; le_user : uname; le_path : path; le_res : res }.
 Definition ledger := list lentry.
+Definition neg_res (r : res) : res := map (fun kv => (fst kv, (- snd kv)%Z)) r.
 
-Fixpoint ledger_add (l : ledger) (a : app) (u : uname) (p : path) (r : res) : ledger :=
-  match l with
-  | [] => [mkLE a u p r]
-  | e :: t => if le_app e =? a then mkLE a (le_user e) (le_path e) (Add (Some (le_res e)) (Some r)) :: t
-              else e :: ledger_add t a u p r
-  end.
-Fixpoint ledger_sub (l : ledger) (a : app) (r : res) (removeApp : bool) : ledger :=
-  match l with
-  | [] => []
-  | e :: t => if le_app e =? a
-              then if removeApp then t else mkLE a (le_user e) (le_path e) (Sub (Some (le_res e)) (Some r)) :: t
-              else e :: ledger_sub t a r removeApp
-  end.
 Definition ledger_step (l : ledger) (o : op) : ledger :=
   match o with
-  | OInc p a (Some r) u _ => ledger_add l a (fst u) p r
-  | ODec p a (Some r) u rm => ledger_sub l a r rm
+  | OInc p a (Some r) u _ => mkLE a (fst u) p r :: l
+  | ODec p a (Some r) u false => mkLE a (fst u) p (neg_res r) :: l
+  | ODec p a (Some r) u true => filter (fun e => negb (le_app e =? a)) l
   | _ => l
   end.
 
